@@ -19,6 +19,11 @@ PROPS = {
                    "construction); index conventions of underflow/bins/overflow agree with the filler; path rules on the single-pass filler: the comparison "
                    "between entry and edge is `>=` (half-open bins), every loop path that consumes an entry increments exactly one count and records the "
                    "entry, leftovers go to the overflow with their number, pending list cleared; rebin zeroes counts and re-queues all processed entries."),
+    "C02": ("c02", "Cache coherence of the container layer: inputs of each cache are derived from the compute function's transitive read set; every "
+                   "writer of an input (all functions visible on each of the 8 container / parametric-model classes) must reach the invalidator on all "
+                   "normal paths (total-error cache, CovMat caches), value writers must reset the source references of the written axis, raw reads of "
+                   "lazily recomputed model values must be dominated by the stale check, the total is summed after the lazy values are brought up to date, "
+                   "disabled sources are skipped wherever covariances are accumulated, lazy getters test the field they return."),
 }
 
 
